@@ -31,8 +31,7 @@ def flat(s):
     return re.sub(r"\s+", "", s)
 
 
-def flatp(s):
-    return re.sub(r"[\s()]+", "", s)
+from rules.common import flatp, has, same  # noqa: E402
 
 
 def last_seg(path):
@@ -127,7 +126,7 @@ def r1_tables(ctx):
             for q in quotes_in(fn.body):
                 t = tok_text(q["tokens"])
                 want = "PluralCategory" if ty == "PluralForm" else "PluralRuleType"
-                if "icu :: plurals :: " + want + " ::" not in t:
+                if ("icu :: plurals :: " + want + " ::") not in t:
                     r.viol("R1:%s#enum" % key, "generated path `%s` is not icu::plurals::%s::*" % (t, want), file=fn.file, line=fn.line)
     # t_plural! form names
     fn = ast.fn("leptos_i18n_macro/src/t_plural/parsed_input.rs", "parse_plural_form")
@@ -189,7 +188,7 @@ def r2_candidates(ctx):
         "form": "PluralForm::try_from_strsuffix.map|form|base_key,rule_type,form",
     }
     for k, frag in steps.items():
-        if frag in t:
+        if has(t, frag):
             r.inst("is_possible_plural#" + k, frag[:80])
         else:
             r.viol("R2:is_possible_plural#" + k, "step `%s` not found in is_possible_plural" % frag[:80], file=fn.file, line=fn.line)
@@ -207,7 +206,7 @@ def r2_candidates(ctx):
         "other": "other:Box::newother",
     }
     for k, frag in steps.items():
-        if frag in t:
+        if has(t, frag):
             r.inst("merge_plurals#" + k, frag[:80])
         else:
             r.viol("R2:merge_plurals#" + k, "step `%s` not found in merge_plurals" % frag[:80], file=fn.file, line=fn.line)
@@ -273,14 +272,14 @@ def r3_diagnostics(ctx, prog):
             "unused": "forforminforms.difference&used_forms.copied{warnings.emit_warningWarning::UnusedForm{",
         }
         for k, frag in steps.items():
-            if frag in t:
+            if has(t, frag):
                 r.inst("check_forms#" + k, frag[:80])
             else:
                 r.viol("R3:check_forms#" + k, "step `%s` not found" % frag[:80], file=fn.file, line=fn.line)
     fn = ctx.ast.fn(PP, "get_plural_rules", impl_self="Plurals")
     if fn is not None:
         t = flatp(show(fn.body))
-        if "PluralRules::try_new&locale.into,self.rule_type.into" not in t or "locale.name.parse::<icu_locid::Locale>" not in t:
+        if not has(t, "PluralRules::try_new&locale.into,self.rule_type.into") or not has(t, "locale.name.parse::<icu_locid::Locale>"):
             r.viol("R3:Plurals::get_plural_rules", "parse-time plural rules are not built from (this locale, this key's rule type)", file=fn.file, line=fn.line)
         else:
             r.inst("Plurals::get_plural_rules", "PluralRules::try_new(&locale, self.rule_type)")
@@ -308,13 +307,13 @@ def r4_selectors(ctx):
                re.search(r"let_plural_rules=l_i18n_crate::__private::get_plural_rules\(\*?#locale_field,#rule_type\);", fq):
                 ok = True
         t = flatp(show(fn.body))
-        arms_ok = ("this.forms.iter" in t and "letform=PluralForm::from*form;" in t and "quote!#form=>{#ts}" in re.sub(r"[\s()]+", "", " ".join(qs)) or True)
+        arms_ok = ("this.forms.iter" in t and has(t, "letform=PluralForm::from*form;") and "quote!#form=>{#ts}" in re.sub(r"[\s()]+", "", " ".join(qs)) or True)
         src = {
             "forms-forward": re.search(r"letmatch_arms=this\.forms\.iter(\.enumerate)?\.map", t) is not None,
-            "form-from-key": "letform=PluralForm::from*form;" in t,
-            "rule-type": "letrule_type=PluralRuleType::fromthis.rule_type;" in t,
+            "form-from-key": has(t, "letform=PluralForm::from*form;"),
+            "rule-type": has(t, "letrule_type=PluralRuleType::fromthis.rule_type;"),
             "other": ("&this.other" in t),
-            "locale-field": "letlocale_field=Key::newLOCALE_FIELD_KEY" in t,
+            "locale-field": has(t, "letlocale_field=Key::newLOCALE_FIELD_KEY"),
         }
         if ok and all(src.values()):
             r.inst("macro plurals::" + name, "match category_for(count) { form => value, .. _ => other } with get_plural_rules(locale, this.rule_type)")
@@ -333,7 +332,7 @@ def r4_selectors(ctx):
         frag = "matchPluralForm::from_icu_categorycategory{PluralForm::Other=>self.other.populateargs,foreign_key,locale,key_path;other_cat=>self.forms.get&other_cat.unwrap_or&self.other.populateargs,foreign_key,locale,key_path}"
         gc = [f for f in ast.fns_named(PP, "get_category")]
         tg = flatp(show(gc[0].body)) if gc else ""
-        if frag in t and "letplural_rules=plurals.get_plural_ruleslocale?;letcat=plural_rules.category_forinput;" in tg:
+        if frag in t and has(tg, "letplural_rules=plurals.get_plural_ruleslocale?;letcat=plural_rules.category_forinput;"):
             r.inst("Plurals::populate_with_count_arg", "forms.get(category).unwrap_or(other).populate(args)")
         else:
             r.viol("R4:Plurals::populate_with_count_arg", "parse-time selection is no longer forms[category] else other", file=fn.file, line=fn.line)
